@@ -82,6 +82,59 @@ def r2_normaliser_front(ctx):
     ctx.ob(f"{call.key}:annotated", call.loc(hit[1]) if hit else call.loc(), "Annotated[A, ...] is unwrapped to A", ok, "Annotated[A, ...] is no longer unwrapped: it dispatches differently from A")
 
 
+def _handler_by_interpretation(ctx, f, values=False):
+    """Interpret a generic handler `handler(normaliser, t, fn)` on t.__args__ = (a0, a1, a2): the value type it builds
+    is subscripted with every argument exactly once, in order - all normalised, or all raw."""
+    from ..metainterp import HostFn, HostInterp, Raised, Record
+
+    class Sub:
+        def __init__(self, name):
+            self.name = name
+
+        def __getitem__(self, item):
+            return ("T", self.name, item)
+
+    # two of the arguments are real classes: a handler must not treat them differently from other type expressions
+    args = (int, "a1", bool)
+    genv = {}
+    for x in ast.walk(f.node):
+        if isinstance(x, ast.Subscript) and isinstance(x.value, ast.Name) and isinstance(x.ctx, ast.Load) and x.value.id not in f.params:
+            r = ctx.repo.resolve_name(f.module, x.value.id)
+            if r:  # a class, or a value type made by a decorator from a function
+                genv[x.value.id] = Sub(x.value.id)
+    if not genv:
+        return None
+    funcs = {n: g.node for n, g in f.module.funcs.items() if g.parent is None and g.cls is None and g is not f and not g.node.decorator_list}
+    hi = HostInterp({}, Record(), {}, globals_env=genv, classes={}, functions=funcs)
+    hi.host_types = hi.host_types + (Sub,)
+    norm = HostFn(lambda a, fn=None: ("N", a))
+    try:
+        got = hi.call_function(f.node, [norm, Record(__args__=args, __origin__="G"), "<fn>"], {}, {})
+    except (AnalysisError, Raised) as e:
+        ctx.note(f"{f.key} not interpretable ({e}); shape rule used instead")
+        return None
+    if not (isinstance(got, tuple) and got and got[0] == "T"):
+        return False, f"returns {got!r} instead of a value type subscripted with the arguments"
+    flat = []
+
+    def walk(x):
+        if isinstance(x, tuple) and x[:1] == ("N",) and len(x) == 2:
+            flat.append(x)
+        elif isinstance(x, (tuple, list)):
+            for y in x:
+                walk(y)
+        else:
+            flat.append(x)
+
+    walk(got[2])
+    if values and flat == list(args):
+        return True, ""  # the arguments of Literal[...] are values, handed on as they are
+    if not values and flat == [("N", a) for a in args]:
+        return True, ""
+    raw = [a for a in flat if not (isinstance(a, tuple) and a[:1] == ("N",))]
+    return False, f"subscripts the value type with {got[2]!r} for the arguments {args}" + (f" ({raw} not normalised: a string, an alias or a bare `type` / `Any` among the arguments is not converted)" if raw and not values else "")
+
+
 def r3_generic_handlers_use_every_argument(ctx):
     repo = ctx.repo
     hs = [(f, g) for f, g in A.generic_handlers(repo) if dotted(g) not in ("typing.Union", "Union")]
@@ -91,6 +144,17 @@ def r3_generic_handlers_use_every_argument(ctx):
         ctx.touch(f)
         nz, t = f.params[0], f.params[1]
         gname = dotted(g)
+        verdict = _handler_by_interpretation(ctx, f, values=gname in ("typing.Literal", "Literal"))
+        if verdict is not None:
+            ok_i, detail_i = verdict
+            ctx.ob(
+                f"{f.key}:{gname}:all-arguments",
+                f.loc(),
+                f"the handler for {gname}[...] passes every type argument on, each once, in order, normalised (raw for the values of Literal) (interpreted on three arguments)",
+                ok_i,
+                f"the handler for {gname}[...] {detail_i}: {gname}[A, B] is treated like another type",
+            )
+            continue
         rets = [s for s in ast.walk(f.node) if isinstance(s, ast.Return) and s.value is not None]
         ctx.require(len(rets) == 1 and isinstance(rets[0].value, ast.Subscript), f"{f.key}: handler does not return <ValueType>[...]")
         sl = rets[0].value.slice
